@@ -51,7 +51,9 @@ def cases(draw):
             'distance_kpc': draw(st.one_of(st.none(), gen.logfloat(1e-3, 1e4))), 'storage': draw(st.sampled_from(['asc', 'desc'])),
             'bad_target': draw(st.sampled_from(['K', 'm', 'Hz'])),
             # the error column may be stored in its own unit (any of the supported ones)
-            'err_stored': draw(st.one_of(st.none(), st.sampled_from(UNITS)))}
+            'err_stored': draw(st.one_of(st.none(), st.sampled_from(UNITS))),
+            # model packages store SEDs in single precision ('E' columns); the faint ends of real SEDs reach 1e-30 mJy
+            'dtype': draw(st.sampled_from(['D', 'D', 'E'])), 'faint': draw(st.integers(0, 3)) == 0}
 
 
 def run_case(case, ctx):
@@ -64,7 +66,19 @@ def run_case(case, ctx):
     wav = case['wav']
     nw, nap = len(wav), len(case['apertures'])
     idx = list(range(nw)) if case['storage'] == 'asc' else list(range(nw))[::-1]
-    err = [[0.1 * v for v in row] for row in case['flux']]
+    single = case.get('dtype', 'D') == 'E'
+    scale = 1e-16 if case.get('faint') else 1.
+    f32 = (lambda v: float(np.float32(v))) if single else (lambda v: v)
+    # the values the file holds (single precision files hold the nearest float32)
+    case = dict(case, flux=[[f32(v * scale) for v in row] for row in case['flux']])
+    err = [[f32(0.1 * v) for v in row] for row in case['flux']]
+    rtol = 2e-6 if single else 1e-12
+    labels.add('single_precision_file' if single else 'double_precision_file')
+    if case.get('faint'):
+        labels.add('faint_fluxes')
+
+    def representable(*vals):
+        return not single or all(1e-36 < abs(v) < 1e37 for v in vals)
     E = case.get('err_stored') or A
     espell = case['spelling'] if E == A else SPELL[E][0]
     if E != A:
@@ -76,7 +90,7 @@ def run_case(case, ctx):
         pkgio.write_sed_file(path, 'x', swav, pkgio.wav_to_nu(swav), case['apertures'],
                              [[row[i] for i in idx] for row in case['flux']], [[row[i] for i in idx] for row in err],
                              flux_unit=case['spelling'], err_unit=espell, distance_cm=None if case['distance_kpc'] is None else dcm,
-                             wav_unit='MICRONS' if legacy else 'um', nu_unit='HZ' if legacy else 'Hz')
+                             wav_unit='MICRONS' if legacy else 'um', nu_unit='HZ' if legacy else 'Hz', dtype=case.get('dtype', 'D'))
         with must_succeed('SED.read(unit_flux=%s) of a file stored in %r' % (B, case['spelling'])):
             s = SED.read(path, unit_flux=U(B), order='wav')
         got = np.asarray(s.flux.to(U(B)).value)
@@ -84,12 +98,16 @@ def run_case(case, ctx):
         sw = s.wav.to(u.micron).value
         for a in range(nap):
             for p in range(nw):
-                nu = om.C_UM_HZ / wav[p]
+                nu = f32(om.C_UM_HZ / wav[p])
                 want = om.convert_flux_ref(case['flux'][a][p], nu, A, B, dcm)
                 wante = om.convert_flux_ref(err[a][p], nu, E, B, dcm)
-                if abs(sw[p] - wav[p]) > 1e-12 * wav[p]:
+                if abs(sw[p] - wav[p]) > (1e-6 if single else 1e-12) * wav[p]:
                     fail('wavelength axis changed', 'c15:axis')
-                if abs(got[a][p] - want) > 1e-12 * abs(want) or abs(gote[a][p] - wante) > 1e-12 * abs(wante):
+                if not representable(want, wante, om.convert_flux_ref(case['flux'][a][p], nu, A, 'erg/cm2/s', dcm),
+                                     om.convert_flux_ref(err[a][p], nu, E, 'erg/cm2/s', dcm)):
+                    labels.add('value_outside_single_precision_range_not_compared')
+                    continue
+                if abs(got[a][p] - want) > rtol * abs(want) or abs(gote[a][p] - wante) > rtol * abs(wante):
                     fail('file stored in %s (%r), distance %s: value %r at %r micron read as %r %s, F=nu*F_nu / L=F*d^2 give %r' % (
                         A, case['spelling'], 'absent (1 kpc)' if case['distance_kpc'] is None else '%r kpc' % case['distance_kpc'],
                         case['flux'][a][p], wav[p], got[a][p], B, want), 'c15:read_conversion')
@@ -99,14 +117,16 @@ def run_case(case, ctx):
         pkgio.write_sed_file(path2, 'y', swav, pkgio.wav_to_nu(swav), case['apertures'],
                              [[row[i] for i in idx] for row in case['flux']], [[row[i] for i in idx] for row in err],
                              flux_unit=case['spelling'], err_unit=espell, distance_cm=d2cm,
-                             wav_unit='MICRONS' if legacy else 'um', nu_unit='HZ' if legacy else 'Hz')
+                             wav_unit='MICRONS' if legacy else 'um', nu_unit='HZ' if legacy else 'Hz', dtype=case.get('dtype', 'D'))
         with must_succeed('SED.read of a second file'):
             s2 = SED.read(path2, unit_flux=U(B), order='wav')
         got2 = np.asarray(s2.flux.to(U(B)).value)
         for a in range(nap):
             for p in range(nw):
-                want = om.convert_flux_ref(case['flux'][a][p], om.C_UM_HZ / wav[p], A, B, d2cm)
-                if abs(got2[a][p] - want) > 1e-12 * abs(want):
+                want = om.convert_flux_ref(case['flux'][a][p], f32(om.C_UM_HZ / wav[p]), A, B, d2cm)
+                if not representable(want, om.convert_flux_ref(case['flux'][a][p], f32(om.C_UM_HZ / wav[p]), A, 'erg/cm2/s', d2cm)):
+                    continue
+                if abs(got2[a][p] - want) > rtol * abs(want):
                     fail('a second file (same frequencies, distance %r cm instead of %r cm) stored in %s read as %s gives %r, '
                          'F=nu*F_nu / L=F*d^2 with ITS distance give %r' % (d2cm, dcm, A, B, got2[a][p], want), 'c15:distance_of_other_file')
         # the same SED written by the library's own writer (flux in A, errors in E) and read in B
